@@ -280,6 +280,53 @@ pub fn family_c(i: u64) -> Case {
     Case { model: SrcModel { vars, cons, sense: Sense::Satisfy, obj: num(0.0) }, signature: format!("feeder={fname} consumer={cname}") }
 }
 
+// ---------- family D: several continuous variables with different ranges ----------
+/// x is the variable decided on the whole real line; w and y are decided on every grid line (slice mode)
+pub fn cores_d() -> Vec<(&'static str, Exp)> {
+    let x = || var("x");
+    let y = || var("y");
+    let w = || var("w");
+    let sub = |a: Exp, k: f64| bin(BinOp::Sub, a, num(k));
+    vec![
+        ("max{w,x,y}", Exp::Max(vec![w(), x(), y()])),
+        ("min{w,x,y}", Exp::Min(vec![w(), x(), y()])),
+        ("max{x,y}", Exp::Max(vec![x(), y()])),
+        ("min{y,x}", Exp::Min(vec![y(), x()])),
+        ("abs{x-y}", Exp::Abs(bin(BinOp::Sub, x(), y()).to_box())),
+        ("max{w-5,x,y-1}", Exp::Max(vec![sub(w(), 5.0), x(), sub(y(), 1.0)])),
+        ("min{w+2,y,x+1}", Exp::Min(vec![bin(BinOp::Add, w(), num(2.0)), y(), bin(BinOp::Add, x(), num(1.0))])),
+        ("abs{max{x,y}}", Exp::Abs(Exp::Max(vec![x(), y()]).to_box())),
+        ("min{abs{x},y}", Exp::Min(vec![Exp::Abs(x().to_box()), y()])),
+        ("max{x+y,w}", Exp::Max(vec![bin(BinOp::Add, x(), y()), w()])),
+        ("x-min{y,w}", bin(BinOp::Sub, x(), Exp::Min(vec![y(), w()]))),
+        ("max{y,w}+x", bin(BinOp::Add, Exp::Max(vec![y(), w()]), x())),
+        ("abs{x}+abs{y}", bin(BinOp::Add, Exp::Abs(x().to_box()), Exp::Abs(y().to_box()))),
+        ("max{x,0}-max{y,0}", bin(BinOp::Sub, Exp::Max(vec![x(), num(0.0)]), Exp::Max(vec![y(), num(0.0)]))),
+    ]
+}
+const RHS_D: [f64; 3] = [0.0, 0.5, 2.0];
+pub fn family_d_size(depth: usize) -> u64 {
+    let nctx: u64 = if depth == 0 { 1 } else { CTX_NAMES.len() as u64 };
+    cores_d().len() as u64 * nctx * 3 * RHS_D.len() as u64 * 2 * 2
+}
+pub fn family_d(i: u64, depth: usize) -> Case {
+    let cs = cores_d();
+    let mut d = Digits(i);
+    let int_y = d.pick(2) == 1;
+    let side = d.pick(2);
+    let rhs = *d.of(&RHS_D);
+    let rel = *d.of(&RELS);
+    let k = if depth == 0 { 0 } else { d.pick(CTX_NAMES.len()) };
+    let (cname, core) = d.of(&cs).clone();
+    let e = ctx(k, core);
+    let (lhs, rhs_e) = if side == 0 { (e, num(rhs)) } else { (num(rhs), e) };
+    let vars = vec![("x".to_string(), Dom::Real(-3.0, 3.0)), ("w".to_string(), Dom::Real(2.0, 4.0)), ("y".to_string(), if int_y { Dom::Int(-1, 2) } else { Dom::Real(-1.0, 2.5) })];
+    Case {
+        model: SrcModel { vars, cons: vec![SrcCons { lhs, rel, rhs: rhs_e, bare: false, name: "r".into() }], sense: Sense::Satisfy, obj: num(0.0) },
+        signature: format!("multi core={cname} ctx=[{}] rel={:?} side={} y={}", CTX_NAMES[k], rel, if side == 0 { "lhs" } else { "rhs" }, if int_y { "int" } else { "real" }),
+    }
+}
+
 // ---------- the decision procedure ----------
 
 pub fn grid() -> Vec<Q> {
@@ -518,7 +565,7 @@ pub fn run(mut run: Run) -> ! {
     run.case_timeout_s = 60.0;
     let quick = run.quick();
     let depth = if quick { 1 } else { 2 };
-    run.rule = format!("Model values built through the public constructors (usage marks as the transformer sets them): family A = {} cores (abs/min/max nests, logic values in arithmetic, dominated and equal operands) x every chain of <= {depth} contexts from 12 (positive/negative scale, negation, subtraction on either side, division by +-2, abs, min, max, minus x) x 3 relations x 5 constants x both sides x 8 declaration forms (declared, row-derived, scaled-row-derived, unbounded, half-bounded, integer); family B = every logic tree with <= {} operator nodes over b,c,d,0,1 (incl. n-ary and empty and/or) x bare assertion and 30 comparison forms; family C = 12 bound feeders x 15 consumers; each compiled model is decided exactly: all assignments of the discrete variables x every cell (breakpoints, midpoints, beyond-ends) of the region partition of the continuous one; distinct = model text; non-trivial = compiled with at least one auxiliary or changed row count", cores().len(), if quick { 1 } else { 2 });
+    run.rule = format!("Model values built through the public constructors (usage marks as the transformer sets them): family A = {} cores (abs/min/max nests, logic values in arithmetic, dominated and equal operands) x every chain of <= {depth} contexts from 12 (positive/negative scale, negation, subtraction on either side, division by +-2, abs, min, max, minus x) x 3 relations x 5 constants x both sides x 8 declaration forms (declared, row-derived, scaled-row-derived, unbounded, half-bounded, integer); family B = every logic tree with <= {} operator nodes over b,c,d,0,1 (incl. n-ary and empty and/or) x bare assertion and 30 comparison forms; family C = 12 bound feeders x 15 consumers; family D = 14 cores over three variables with different ranges (x real, w real, y real or integer; min/max with three operands, nested blocks, sums of blocks) in every context (thorough) x 3 relations x 3 constants x both sides, decided for every real x on every grid line of the other continuous variables; each compiled model is decided exactly: all assignments of the discrete variables x every cell (breakpoints, midpoints, beyond-ends) of the region partition of the continuous one; distinct = model text; non-trivial = compiled with at least one auxiliary or changed row count", cores().len(), if quick { 1 } else { 2 });
     run.assume("exact source semantics (refsem) and exact projection of the linear model: integer auxiliaries enumerated, continuous auxiliaries by exact LP; the projection's interval endpoints are added to the test points, so S = L is decided on the whole real line of one continuous variable; extra continuous variables are checked on a 9-point rational grid (slice mode)");
     run.assume("models in which the continuous variable occurs under a logic operator, or whose source is undefined at a test point, are skipped and counted");
     let sa = family_a_size(depth, quick);
@@ -534,6 +581,10 @@ pub fn run(mut run: Run) -> ! {
     run.family("B-logic-assertions", trees.len() as u64 * nf, move |i, l| {
         let c = family_b(&t2, (i / nf) * B_FORMS as u64 + forms[(i % nf) as usize] as u64);
         check_case(&c, l);
+    });
+    let ddepth = if quick { 0 } else { 1 };
+    run.family("D-several-continuous-variables", family_d_size(ddepth), move |i, l| {
+        check_case(&family_d(i, ddepth), l);
     });
     run.family("C-bound-feeders", family_c_size(), |i, l| {
         let c = family_c(i);
